@@ -361,7 +361,9 @@ class Chain:
             if not int(nb) > int(ob):
                 ctx.violation("C17", "build_not_greater_int", facts, "BUILD %r -> %r does not grow numerically" % (ob, nb))
                 break
-            if build_part and (generated or len(ob) >= 4) and not nb > ob:
+            # (BLD drops leading zeros, so a user-chosen short start says nothing; from the first generated value on the
+            # plain-string order must hold for BLD just as for BUILD)
+            if ((build_part and (generated or len(ob) >= 4)) or (not build_part and generated)) and not nb > ob:
                 ctx.violation("C17", "build_not_greater_str", facts, "BUILD %r -> %r does not grow lexically" % (ob, nb))
                 break
             if build_part and int(ob) >= 1000 and len(nb) < len(ob):
